@@ -1,12 +1,16 @@
 import Driver.C04
+import Driver.Bridge
+import Driver.Abi
 
 /-- global driver state: one slot per stateful model -/
 structure St where
-  dummy : Nat := 0
+  bridge : Driver.Bridge.DSt := {}
 
 def stepLine (st : St) (line : String) : St × String :=
   match (line.trimAscii.toString.splitOn " ").filter (· ≠ "") with
   | "C04" :: rest => (st, Driver.C04.step rest)
+  | "ABI" :: rest => (st, Driver.Abi.step rest)
+  | "BR" :: rest => let (b, o) := Driver.Bridge.step st.bridge rest; ({ st with bridge := b }, o)
   | _ => (st, "bad-op")
 
 partial def loop (h : IO.FS.Stream) (out : IO.FS.Stream) (st : St) : IO Unit := do
